@@ -1,8 +1,205 @@
-(* C07 - placeholder while the proofs are being built *)
-From Coq Require Import ZArith List.
-From PCB Require Import lib.PyInt gen.Gen_mbf gen.Gen_dec model.MBF model.Decimal.
+(* C07 - Decimal conversion is accurate in both directions.
+   Only statements, `exact`, Print Assumptions and non-vacuity examples here.
+
+   Objects (model/Decimal.v over gen/Gen_mbf.v + gen/Gen_dec.v, regenerated from numbers.py):
+     F : dfmt             Single_fmt | Double_fmt  (is_fmt F)
+     f_to_str F b ls ts   Float.to_str(leading_space, type_sign) on the buffer b
+     from_repr hard w a   Values.from_repr(w, allow_nonnum=a); hard = the float error handler raises
+     f_sval C b           the exact value of b times 2^bias (an integer); value_scaled v = value * 2^184
+   Clauses 1 (integers exact), 2 (digit count) and 3 (type choice) are proved in full.  Of clause 4 (the
+   two error bounds) the parts are proved: every scaling step with its error, the number of loop passes;
+   the accumulated statements are the Definitions C07_print_err_statement / C07_parse_err_statement. *)
+From Coq Require Import ZArith List Bool.
+From PCB Require Import lib.Result lib.PyInt lib.Harness lib.MBFPrims gen.Gen_mbf gen.Gen_dec model.MBF
+  model.Decimal proofs.MBF_base proofs.Decimal_den proofs.Decimal_todec proofs.Decimal_print
+  proofs.Decimal_parse proofs.Decimal_back proofs.Decimal_proofs.
 Import ListNotations.
 Open Scope Z_scope.
-Theorem C07_placeholder : dec_single_digits = 7.
-Proof. reflexivity. Qed.
-Print Assumptions C07_placeholder.
+
+(* ================================================================================================ *)
+(* CLAUSE 1 - integers within the exact range are shown exactly, and read back exactly              *)
+
+(* every integer-valued single / double n with |n| < 10^7 / 10^16 prints as: minus sign or (optional)
+   blank, the decimal digits of |n|, the (optional) type sigil - nothing else *)
+Theorem C07_print_int_exact : forall F b n ls ts, is_fmt F -> buf_ok (d_C F) b ->
+  f_sval (d_C F) b = n * 2 ^ c_bias (d_C F) -> n <> 0 -> Z.abs n < 10 ^ c_digits (d_C F) ->
+  f_to_str F b ls ts = Ok (sign_str (n <? 0) ls ++ dec_str (Z.abs n) ++ (if ts then d_sigil F else [])).
+Proof. exact to_str_int. Qed.
+Print Assumptions C07_print_int_exact.
+
+(* the text  [blank | -] digits of |n|  reads back as a value equal to n (an Integer when it is a digit
+   string of at most 32767, else a Single up to seven digits, else a Double), for every |n| < 10^16 *)
+Theorem C07_read_back_int : forall hard allow n ls, Z.abs n < 10 ^ 16 ->
+  exists v, from_repr hard (sign_str (n <? 0) ls ++ dec_str (Z.abs n)) allow = Ok v /\
+            value_scaled v = n * 2 ^ 184.
+Proof. exact read_back_int. Qed.
+Print Assumptions C07_read_back_int.
+
+(* PRINT / STR$ followed by VAL / INPUT: the round trip of an integer-valued float is the identity on values *)
+Theorem C07_int_roundtrip : forall F b n hard allow, is_fmt F -> buf_ok (d_C F) b ->
+  f_sval (d_C F) b = n * 2 ^ c_bias (d_C F) -> n <> 0 -> Z.abs n < 10 ^ c_digits (d_C F) ->
+  exists s v, f_to_str F b true false = Ok s /\ from_repr hard s allow = Ok v /\
+              value_scaled v = n * 2 ^ 184.
+Proof.
+  intros F b n hard allow HF Hb Hv Hn0 Hn.
+  assert (H16 : Z.abs n < 10 ^ 16).
+  { destruct HF as [->| ->]; [change (c_digits (d_C Single_fmt)) with 7 in Hn | exact Hn].
+    eapply Z.lt_trans; [exact Hn | reflexivity]. }
+  destruct (read_back_int hard allow n true H16) as (v & Hr & Hval).
+  exists (sign_str (n <? 0) true ++ dec_str (Z.abs n)), v.
+  split; [|split; assumption]. rewrite (to_str_int F b n true false HF Hb Hv Hn0 Hn), app_nil_r. reflexivity.
+Qed.
+Print Assumptions C07_int_roundtrip.
+
+(* ================================================================================================ *)
+(* CLAUSE 2 - at most 7 / 16 significant digits                                                     *)
+
+(* every single / double buffer prints (no error, no exhausted loop), and the printed text shows at most
+   `digits` significant digits (digit characters before the exponent letter, without leading zeros) *)
+Theorem C07_digit_count : forall F b ls ts, is_fmt F -> buf_ok (d_C F) b ->
+  exists s, f_to_str F b ls ts = Ok s /\ printed_sig_digits s <= c_digits (d_C F).
+Proof. exact to_str_digits. Qed.
+Print Assumptions C07_digit_count.
+
+Theorem C07_digits_are_7_and_16 : c_digits (d_C Single_fmt) = 7 /\ c_digits (d_C Double_fmt) = 16.
+Proof. split; reflexivity. Qed.
+
+(* ================================================================================================ *)
+(* CLAUSE 3 - the type follows sigil, exponent letter and digit count                               *)
+
+(* the character loop of str_to_decimal computes, for EVERY list of characters, the declarative reading
+   of the text without its blanks (Decimal.v: lit_mant, lit_ending, sig_digits, doc_is_double ...): mantissa digits,
+   decimal exponent, and the documented rule  ! -> single, # -> double, D -> double, otherwise double
+   exactly when more than 7 significant digits; ValueError exactly when allow_nonnum is off and a
+   character that is not part of the number stops the scan *)
+Theorem C07_parser_reading : forall w allow,
+  let t := nonblank w in
+  match str_to_decimal w allow with
+  | Ok (dbl, m, e) => (allow = true \/ has_nonnum t = false)
+                      /\ dbl = doc_is_double t /\ m = doc_mantissa t /\ e = doc_exp10 t
+  | Host x => x = host_ValueError /\ allow = false /\ has_nonnum t = true
+  | _ => False
+  end.
+Proof. exact str_to_decimal_spec. Qed.
+Print Assumptions C07_parser_reading.
+
+(* the type of from_repr's result on every word that is not a &H / &O literal: Integer for a digit string
+   of at most 32767, otherwise Double / Single by the documented rule *)
+Theorem C07_type_choice : forall hard word allow v,
+  (forall r, stripped word <> 38 :: r) ->
+  from_repr hard word allow = Ok v -> v_tag v = doc_type word.
+Proof. exact from_repr_type. Qed.
+Print Assumptions C07_type_choice.
+
+(* ================================================================================================ *)
+(* CLAUSE 4 - error bounds: proved parts                                                            *)
+
+(* one _div10_den step: normalised result, exponent -3 or -4, value below the exact tenth by at most two
+   units of the last of its 8 guard bits (5 m' 2^e' < 8 m 2^(e-4) <= (5 m' + 10) 2^e') *)
+Theorem C07_div10_step_partial : forall F e m neg, is_fmt F -> den_norm (d_C F) m ->
+  exists e' m', mbf_div10_den (d_C F) (e, m, neg) = Ok (e', m', neg) /\ den_norm (d_C F) m' /\
+    ((e' = e - 3 /\ 5 * m' < 4 * m <= 5 * m' + 5) \/ (e' = e - 4 /\ 5 * m' < 8 * m <= 5 * m' + 10)).
+Proof. exact div10_step. Qed.
+Print Assumptions C07_div10_step_partial.
+
+(* one _mul10_den step: normalised result, exponent +3 or +4, within one unit of the last guard bit *)
+Theorem C07_mul10_step_partial : forall F e m neg, is_fmt F -> 0 <= e -> den_norm (d_C F) m ->
+  exists e' m', mbf_mul10_den (d_C F) (e, m, neg) = (e', m', neg) /\ den_norm (d_C F) m' /\
+    ((e' = e + 3 /\ -4 < 4 * m' - 5 * m < 4) \/ (e' = e + 4 /\ -8 < 8 * m' - 5 * m < 8)).
+Proof. exact mul10_step. Qed.
+Print Assumptions C07_mul10_step_partial.
+
+(* _apply_carry_den: rounds the guard byte to nearest (half up): half a unit of the last mantissa bit *)
+Theorem C07_carry_step_partial : forall F e m neg, is_fmt F -> den_norm (d_C F) m ->
+  exists e' m', mbf_apply_carry_den (d_C F) (e, m, neg) = (e', m', neg) /\ den_norm (d_C F) m' /\ m' mod 256 = 0 /\
+    ((e' = e /\ m' = 256 * ((m + 128) / 256)) \/ (e' = e + 1 /\ m' = 256 * hb (d_C F) /\ 512 * hb (d_C F) - 128 <= m)).
+Proof. exact carry_step. Qed.
+Print Assumptions C07_carry_step_partial.
+
+(* the number of loop passes of to_decimal is bounded by the exponent range: the decimal exponent of the
+   `digits`-digit mantissa lies in -60 .. 36 (so at most 36 divisions or 60 multiplications), and the
+   mantissa has at most `digits` digits; from_decimal's loops run |exp10| times by construction *)
+Theorem C07_loop_length_partial : forall F b, is_fmt F -> buf_ok (d_C F) b -> f_zero b = false ->
+  exists num e10, f_decimal (d_C F) b = Ok (num, e10) /\ Z.abs num < 10 ^ c_digits (d_C F) /\ -60 <= e10 <= 36.
+Proof. exact decimal_exp_range. Qed.
+Print Assumptions C07_loop_length_partial.
+
+(* from_decimal is exact when no scaling is needed and the integer fits the mantissa *)
+Theorem C07_from_decimal_exact_partial : forall C n, fmt_ok C -> n <> 0 -> Z.abs n < 2 ^ mbits C ->
+  exists b, mbf_from_decimal C (zeros (c_size C)) n 0 = Ok b /\ buf_ok C b /\ f_sval C b = n * 2 ^ c_bias C.
+Proof. exact from_decimal_int. Qed.
+Print Assumptions C07_from_decimal_exact_partial.
+
+(* --- the full statements of clause 4 (OPEN: not proved; checked by the exact-rational oracle of
+       harness/C07.py on every run) *)
+
+(* the printed value differs from the stored value by less than one unit of the last digit shown
+   (printed value = pd_int s * 10^pd_exp10 s; everything scaled by 2^bias) *)
+Definition C07_print_err_statement : Prop :=
+  forall F b ls ts s, is_fmt F -> buf_ok (d_C F) b -> f_to_str F b ls ts = Ok s ->
+    let X := f_sval (d_C F) b in
+    let B := 2 ^ c_bias (d_C F) in
+    let k := pd_exp10 s in
+    if 0 <=? k then Z.abs (pd_int s * 10 ^ k * B - X) < 10 ^ k * B
+    else Z.abs (pd_int s * B - X * 10 ^ (- k)) < B.
+
+(* a literal whose digit string fits the mantissa of its type is stored with an error of less than one
+   unit in the last binary place of the stored number (decimal value = doc_mantissa * 10^doc_exp10) *)
+Definition C07_parse_err_statement : Prop :=
+  forall hard word allow F b,
+    let t := nonblank (stripped word) in
+    (forall r, stripped word <> 38 :: r) -> has_nonnum t = false -> is_fmt F ->
+    from_repr hard word allow = Ok (d_mk F b) -> f_zero b = false ->
+    Z.abs (doc_mantissa t) < 2 ^ mbits (d_C F) ->
+    let Y := f_sval (d_C F) b in
+    let B := 2 ^ c_bias (d_C F) in
+    let U := 2 ^ f_exp b in
+    let k := doc_exp10 t in
+    if 0 <=? k then Z.abs (Y - doc_mantissa t * 10 ^ k * B) < U
+    else Z.abs (Y * 10 ^ (- k) - doc_mantissa t * B) < U * 10 ^ (- k).
+
+(* the hypothesis |mantissa| < 2^mbits of the parse statement is needed (known finding K07a): the
+   19-digit literal 974824.3516702999802 is stored more than two units of the last place off *)
+Theorem C07_parse_long_literal_refuted :
+  let w := [57; 55; 52; 56; 50; 52; 46; 51; 53; 49; 54; 55; 48; 50; 57; 57; 57; 56; 48; 50] in
+  exists b, from_repr true w true = Ok (VDbl b) /\ f_zero b = false /\
+    doc_mantissa (nonblank (stripped w)) = 9748243516702999802 /\ doc_exp10 (nonblank (stripped w)) = -13 /\
+    2 * (2 ^ f_exp b * 10 ^ 13) < Z.abs (f_sval Double_consts b * 10 ^ 13 - 9748243516702999802 * 2 ^ 184).
+Proof.
+  eexists. split; [vm_compute; reflexivity|]. split; [reflexivity|]. split; [vm_compute; reflexivity|].
+  split; [vm_compute; reflexivity|]. vm_compute. reflexivity.
+Qed.
+Print Assumptions C07_parse_long_literal_refuted.
+
+(* ================================================================================================ *)
+(* non-vacuity                                                                                      *)
+
+(* 1234567 as a single (bytes 38 b4 16 95) prints as " 1234567" and reads back as that single;
+   the double 9999999999999999.75 (the witness of defect D07a) prints with 1 significant digit as 1D+16;
+   12345678 is read as a double, 1234567 and 1E5 as singles, 1D5 and 1# as doubles, 12 as an integer *)
+Example C07_nonvacuous :
+  is_fmt Single_fmt /\ buf_ok Single_consts [56; 180; 22; 149] /\
+  f_sval Single_consts [56; 180; 22; 149] = 1234567 * 2 ^ 152 /\
+  f_to_str Single_fmt [56; 180; 22; 149] true false = Ok [32; 49; 50; 51; 52; 53; 54; 55] /\
+  from_repr true [32; 49; 50; 51; 52; 53; 54; 55] true = Ok (VSng [56; 180; 22; 149]) /\
+  f_to_str Double_fmt [255; 255; 3; 191; 201; 27; 14; 182] true false = Ok [32; 49; 68; 43; 49; 54] /\
+  printed_sig_digits [32; 49; 68; 43; 49; 54] = 1 /\
+  map doc_type [[49; 50; 51; 52; 53; 54; 55; 56]; [49; 50; 51; 52; 53; 54; 55]; [49; 69; 53]; [49; 68; 53]; [49; 35]; [49; 50]]
+    = [8; 4; 4; 8; 8; 2].
+Proof.
+  split; [left; reflexivity|]. split; [split; [reflexivity | apply bytesb_ok; reflexivity]|].
+  repeat split; vm_compute; reflexivity.
+Qed.
+
+(* the error statements are satisfiable and hold on examples (0.1 as a single prints as .1; 1E-5 read back) *)
+Example C07_err_examples :
+  (let s := [32; 46; 49] in
+   f_to_str Single_fmt [205; 204; 76; 125] true false = Ok s /\ pd_int s = 1 /\ pd_exp10 s = -1 /\
+   Z.abs (pd_int s * 2 ^ 152 - f_sval Single_consts [205; 204; 76; 125] * 10 ^ 1) < 2 ^ 152) /\
+  (exists b, from_repr true [49; 69; 45; 53] true = Ok (VSng b) /\
+     Z.abs (f_sval Single_consts b * 10 ^ 5 - 1 * 2 ^ 152) < 2 ^ f_exp b * 10 ^ 5).
+Proof.
+  split.
+  - cbv zeta. repeat split; vm_compute; reflexivity.
+  - eexists. split; [vm_compute; reflexivity|]. vm_compute. reflexivity.
+Qed.
